@@ -120,7 +120,7 @@ Parse(s) == Pieces(s, 1, <<>>)
 CONSTANTS Rec    \* [lvl, msg, target, module, file, line, thread, mdc]; module/file/line may be <<"-">> = absent
 Absent == <<"-">>
 Marks == {"<S:ERROR>", "<S:WARN>", "<S:INFO>", "<S:TRACE>", "<S:0>", "<pid>", "<tid>", "<thread_id>", "<date>", "<date?>", "<ERR>",
-          "<APPROX>", "<HUGE>"}
+          "<APPROX>", "<HUGE>", "<fmt>", "</fmt>", "<utc>", "<local>"}
 IsMark(t) == t \in Marks
 OrQ(x) == IF x = Absent THEN <<"?", "?", "?">> ELSE x
 StyleFor(l) == CASE l = <<"E", "R", "R", "O", "R">> -> <<"<S:ERROR>">> [] l = <<"W", "A", "R", "N">> -> <<"<S:WARN>">>
@@ -208,7 +208,10 @@ RenderPiece(pc) ==
                    IN IF ~zoneOk THEN ErrOut
                       ELSE IF \E i \in 1..Len(fmt) : fmt[i] = "%" THEN
                            (IF BadStrftime(fmt, 1) THEN ErrOut                              \* invalid specifier: an error, never a panic
-                            ELSE Fit(<<IF GoodStrftime(fmt, 1) THEN "<date>" ELSE "<date?>">>, pc.prm))  \* opaque
+                            \* opaque, but the format and the zone are part of the expectation: the harness formats
+                            \* its own clock reading with them
+                            ELSE Fit(<<IF GoodStrftime(fmt, 1) THEN "<date>" ELSE "<date?>", "<fmt>">> \o fmt
+                                     \o <<"</fmt>", IF Len(pc.args) = 2 /\ pc.args[2][1].t = <<"u", "t", "c">> THEN "<utc>" ELSE "<local>">>, pc.prm))
                       ELSE Fit(fmt, pc.prm)                                                        \* literal format text
          [] n \in {<<"X">>, <<"m","d","c">>} ->
               IF Len(pc.args) > 2 \/ Len(pc.args) = 0 THEN ErrOut
